@@ -63,6 +63,19 @@ func isCounter(p *Prog, f *ssa.Function, x ssa.Value) bool {
 		}
 		return true
 	case *ssa.BinOp:
+		// the sum of two counters (the expression's own depth plus the level of the tags around it): a counter
+		if v.Op == token.ADD && !counterCarriedOnly {
+			other := func(y ssa.Value) bool {
+				if _, isK := constInt(y); isK {
+					return true
+				}
+				fa, ok := fieldOf(y)
+				return ok && isIntType(y.Type()) && steppedSomewhere(p, fa)
+			}
+			if (isCounter(p, f, v.X) && other(v.Y)) || (isCounter(p, f, v.Y) && other(v.X)) {
+				return true
+			}
+		}
 		// the sum that is also stored: `p.depth + n` compared directly
 		if v.Op == token.ADD {
 			if fa, ok := fieldOf(v.X); ok {
@@ -508,6 +521,12 @@ func ruleC01Reentry(p *Prog, a *Anchors, r *Report) {
 			}
 			n++
 			key := p.FuncName(m) + ":counts-a-level"
+			// the method counts the level itself — on a counter of the rendering that it steps and compares with a
+			// constant, refusing with an error — before it executes anything
+			if site != nil && behindDepthStep(p, site) {
+				r.OK(key, p.InstrPos(site), "the nested execution stands behind a depth step of the method itself (a counter stepped here, compared with a constant, refusing with an error)")
+				continue
+			}
 			// the counter: an int field of the nested context stored as <calling context>.field + k
 			counted := -1
 			for _, nv := range nested {
@@ -703,96 +722,139 @@ func ruleC01UserMethods(p *Prog, a *Anchors, r *Report) {
 	}
 }
 
-// R-C01-BUDGET. Two bounds multiply on the stack: a macro (or a nested execution) may recurse K_exec activations deep,
-// and every activation puts the nesting of its body — at most K_nest counted levels of tags plus K_nest of expressions —
-// in between. A stack overflow ends the process and cannot be recovered from, so the PRODUCT has to stay below what Go's
-// fixed 1 GB stack limit holds. The rule reads the constants off the depth steps and decides the arithmetic; the bytes
-// per level are an estimate, stated here and not derived: up to about 1.3 KB (a subscript or call-argument level is
-// variableResolver.resolve + Evaluate + nodeFilteredVariable.Evaluate = 1264 bytes of frames; a for level costs the same;
-// measured by a hunter's demonstration: 800 levels × 1000 activations overflow), so 10⁹ / 1300 ≈ 750 000 levels fit.
-// Products with the other execution bounds (a macro that includes 100 templates deep at every activation) are NOT
-// covered: bounding those needs a stack budget carried through the rendering, which the engine does not have.
-const stackBudgetLevels = 750000
+// R-C01-BUDGET. Two kinds of bounds multiply on the stack: the nested executions of a rendering (macro calls, block.Super
+// calls, templates executed by include/ssi) may be E deep in total, and every one of them puts the nesting of what it
+// executes — at most N counted levels of tags and expressions — in between. A stack overflow ends the process and
+// cannot be recovered from, so N·E has to stay below what the stack holds. The rule reads the constants off the depth
+// steps and decides the arithmetic:
+//   - N: compile-time counters (fields of the parser / the template under construction) that a refusing comparison
+//     bounds. A comparison of a SUM of counters bounds them together (once); counters bounded separately add up.
+//   - E: execution-time counters; each is a stack of its own kind, so their bounds add up (a counter that several
+//     comparisons bound counts once, with the largest constant).
+// The bytes per level are an estimate, stated here and not derived: up to about 1.3 KB (a subscript or call-argument
+// level is variableResolver.resolve + Evaluate + nodeFilteredVariable.Evaluate = 1264 bytes of frames, measured at
+// 1300 per level by running out of a 64 MB stack; a for level costs 0.9 KB). Go's stack limit of 10⁹ bytes is in effect
+// 2²⁹ (stacks grow by doubling, and 2³⁰ exceeds the limit): 2²⁹ / 1310 ≈ 409 000 levels fit.
+const stackBudgetLevels = 409000
 
 func ruleC01Budget(p *Prog, a *Anchors, r *Report) {
-	r.Begin("R-C01-BUDGET", "the compile-time nesting bound times the largest execution-time recursion bound (macro depth, template depth) stays within the stack budget: 2·K_nest·K_exec ≤ 7.5·10⁵ counted levels", 1)
-	ctxPtr := types.NewPointer(a.ExecCtx)
-	boundsOf := func(f *ssa.Function, pred func(x ssa.Value) bool) []int64 {
-		var out []int64
+	r.Begin("R-C01-BUDGET", "the nesting one execution can put on the stack (compile-time bounds, added where counted separately) times the nested executions of a rendering (execution-time bounds, added up) stays within the stack: N·E ≤ 4.09·10⁵ counted levels", 1)
+	creach := a.CompileReach()
+	type group struct {
+		fields []string
+		k      int64
+		at     string
+	}
+	var groups []group
+	fieldName2 := func(v ssa.Value) string {
+		u, ok := v.(*ssa.UnOp)
+		if !ok || u.Op != token.MUL || !isIntType(u.Type()) {
+			return ""
+		}
+		fa, ok := u.X.(*ssa.FieldAddr)
+		if !ok {
+			return ""
+		}
+		n := structOf(fa.X.Type())
+		if n == nil || (n.Obj().Name() != "Parser" && n.Obj().Name() != "Template") {
+			return ""
+		}
+		return n.Obj().Name() + "." + fieldName(fa.X.Type(), fa.Field)
+	}
+	for _, f := range p.inPkgFuncsSorted(p.allFuncSet()) {
+		if errorResultIndex(f) < 0 || !creach[f] {
+			continue
+		}
 		for _, b := range f.Blocks {
 			iff, ok := b.Instrs[len(b.Instrs)-1].(*ssa.If)
 			if !ok {
 				continue
 			}
-			c, pol := normCond(iff.Cond, true)
-			bo, ok := c.(*ssa.BinOp)
-			if !ok || (bo.Op != token.GTR && bo.Op != token.GEQ) {
+			c, _ := normCond(iff.Cond, true)
+			if !refusingCompare(p, f, c) {
 				continue
 			}
-			k, isK := constInt(bo.Y)
-			if !isK || !pred(bo.X) {
-				continue
+			bo := c.(*ssa.BinOp)
+			k, _ := constInt(bo.Y)
+			var fields []string
+			var collect func(v ssa.Value)
+			collect = func(v ssa.Value) {
+				if n := fieldName2(v); n != "" {
+					fields = append(fields, n)
+					return
+				}
+				if add, ok := v.(*ssa.BinOp); ok && add.Op == token.ADD {
+					collect(add.X)
+					collect(add.Y)
+				}
 			}
-			idx := 0
-			if !pol {
-				idx = 1
-			}
-			if errorReturnsOnly(f, b.Succs[idx]) {
-				out = append(out, k)
+			collect(bo.X)
+			if len(fields) > 0 {
+				groups = append(groups, group{fields, k, p.FuncName(f)})
 			}
 		}
-		return out
 	}
-	var kNest, kExec int64
-	var nestAt, execAt string
-	creach, ereach := a.CompileReach(), a.ExecReach()
-	for _, f := range p.inPkgFuncsSorted(p.allFuncSet()) {
-		if errorResultIndex(f) < 0 {
+	// N: widest groups first; a field is counted with the first group that covers it
+	sort.SliceStable(groups, func(i, j int) bool { return len(groups[i].fields) > len(groups[j].fields) })
+	covered := map[string]bool{}
+	var nLevels int64
+	var nParts []string
+	for _, g := range groups {
+		fresh := false
+		for _, f := range g.fields {
+			if !covered[f] {
+				fresh = true
+			}
+		}
+		if !fresh {
 			continue
 		}
-		if creach[f] {
-			// a field counter of the parser / the template under construction
-			for _, k := range boundsOf(f, func(x ssa.Value) bool {
-				u, ok := x.(*ssa.UnOp)
-				if !ok || u.Op != token.MUL {
-					return false
-				}
-				fa, ok := u.X.(*ssa.FieldAddr)
-				if !ok {
-					return false
-				}
-				n := structOf(fa.X.Type())
-				return n != nil && (n.Obj().Name() == "Parser" || n.Obj().Name() == "Template") && isCounter(p, f, x)
-			}) {
-				if k > kNest {
-					kNest, nestAt = k, p.FuncName(f)
-				}
-			}
+		for _, f := range g.fields {
+			covered[f] = true
 		}
-		if ereach[f] {
-			for _, k := range boundsOf(f, func(x ssa.Value) bool {
-				u, ok := x.(*ssa.UnOp)
-				if !ok || u.Op != token.MUL {
-					return false
-				}
-				fa, ok := u.X.(*ssa.FieldAddr)
-				return ok && types.Identical(fa.X.Type(), ctxPtr) && isIntType(u.Type())
-			}) {
-				if k > kExec {
-					kExec, execAt = k, p.FuncName(f)
-				}
+		nLevels += g.k
+		nParts = append(nParts, strings.Join(g.fields, "+")+" ≤ "+itoa(g.k)+" ("+g.at+")")
+	}
+	// E
+	var eLevels int64
+	var eParts []string
+	for _, c := range c01ExecCounters(p, a) {
+		eLevels += c.bound
+		eParts = append(eParts, c.name+" ≤ "+itoa(c.bound)+" ("+c.at+")")
+	}
+	// … and a depth handed on as a parameter (execute(…, depth)) that is compared with a constant
+	for _, f := range p.inPkgFuncsSorted(a.ExecReach()) {
+		if errorResultIndex(f) < 0 || creach[f] {
+			continue // (loading at execution time — a computed include — is compile-time nesting, bounded on its own)
+		}
+		for _, b := range f.Blocks {
+			iff, ok := b.Instrs[len(b.Instrs)-1].(*ssa.If)
+			if !ok {
+				continue
+			}
+			c, _ := normCond(iff.Cond, true)
+			bo, ok := c.(*ssa.BinOp)
+			if !ok {
+				continue
+			}
+			if pa, isP := stripLoad(bo.X).(*ssa.Parameter); isP && refusingCompare(p, f, c) {
+				k, _ := constInt(bo.Y)
+				eLevels += k
+				eParts = append(eParts, "parameter "+pa.Name()+" ≤ "+itoa(k)+" ("+p.FuncName(f)+")")
 			}
 		}
 	}
+	sort.Strings(eParts)
+	desc := "N = " + strings.Join(nParts, " + ") + "; E = " + strings.Join(eParts, " + ")
 	switch {
-	case kNest == 0:
+	case nLevels == 0:
 		r.Bad("nesting × recursion", "-", "no constant bound on the nesting of a source was found (a parser/template counter compared with a constant, refusing with an error): one activation of a macro can put arbitrarily many frames on the stack")
-	case kExec == 0:
-		r.Unk("nesting × recursion", "-", "no execution-time recursion bound on an ExecutionContext counter was found")
-	case 2*kNest*kExec > stackBudgetLevels:
-		r.Bad("nesting × recursion", "-", "nesting bound %d (%s) × recursion bound %d (%s): 2·%d·%d = %d counted levels can be on the stack at once, more than the %d that fit Go's 1 GB limit at up to 1.3 KB each — a macro whose body nests its recursive call deeply exhausts the stack before the depth error is reached, which ends the process", kNest, nestAt, kExec, execAt, kNest, kExec, 2*kNest*kExec, stackBudgetLevels)
+	case eLevels == 0:
+		r.Unk("nesting × recursion", "-", "no execution-time recursion bound was found")
+	case nLevels*eLevels > stackBudgetLevels:
+		r.Bad("nesting × recursion", "-", "%s: %d·%d = %d counted levels can be on the stack at once, more than the %d that fit Go's stack (in effect 512 MB) at up to 1.3 KB each — a macro whose body nests its recursive call deeply exhausts the stack before a depth error is reached, which ends the process", desc, nLevels, eLevels, nLevels*eLevels, stackBudgetLevels)
 	default:
-		r.OK("nesting × recursion", "-", "nesting bound %d (%s) × recursion bound %d (%s): 2·%d·%d = %d ≤ %d counted levels", kNest, nestAt, kExec, execAt, kNest, kExec, 2*kNest*kExec, stackBudgetLevels)
+		r.OK("nesting × recursion", "-", "%s: %d·%d = %d ≤ %d counted levels", desc, nLevels, eLevels, nLevels*eLevels, stackBudgetLevels)
 	}
 }
 
@@ -808,6 +870,16 @@ func ruleC01Counters(p *Prog, a *Anchors, r *Report) {
 	for i := 0; i < st.NumFields(); i++ {
 		if b, ok := st.Field(i).Type().Underlying().(*types.Basic); ok && b.Info()&types.IsInteger != 0 {
 			counters = append(counters, i)
+		}
+	}
+	// … and the pointer to a record that holds counters for the whole rendering: the derived context refers to the
+	// same record
+	recIdx := -1
+	if rec := c01RenderingRecord(p, a); rec != nil {
+		for i := 0; i < st.NumFields(); i++ {
+			if pt, ok := st.Field(i).Type().(*types.Pointer); ok && types.Identical(pt.Elem(), rec) {
+				recIdx = i
+			}
 		}
 	}
 	n := 0
@@ -828,6 +900,31 @@ func ruleC01Counters(p *Prog, a *Anchors, r *Report) {
 		}
 		if fresh == nil {
 			continue
+		}
+		if recIdx >= 0 {
+			n++
+			key := p.FuncName(f) + ":carries " + st.Field(recIdx).Name()
+			shared := false
+			for _, b := range f.Blocks {
+				for _, in := range b.Instrs {
+					x, ok := in.(*ssa.Store)
+					if !ok {
+						continue
+					}
+					fa, ok := x.Addr.(*ssa.FieldAddr)
+					if !ok || fa.Field != recIdx || unspillParam(stripLoad(fa.X)) != ssa.Value(fresh) {
+						continue
+					}
+					if c01RecordOf(p, x.Val, parent, recIdx) {
+						shared = true
+					}
+				}
+			}
+			if shared {
+				r.OK(key, p.Pos(f.Pos()), "the derived context refers to the counters of the rendering it belongs to")
+			} else {
+				r.Bad(key, p.Pos(f.Pos()), "%s builds a context from another one without handing on ExecutionContext.%s: what runs in the derived context counts its nesting on a record of its own, so the recursion bounds no longer bound the stack", p.FuncName(f), st.Field(recIdx).Name())
+			}
 		}
 		for _, ci := range counters {
 			n++
@@ -1325,4 +1422,257 @@ func steppedSomewhere(p *Prog, fa *ssa.FieldAddr) bool {
 		}
 	}
 	return false
+}
+
+// c01ExecCounters: the integer fields (holder type, field index) that execution-time code steps (x.f = x.f + k) and
+// compares with a constant on an edge that only returns errors.
+type c01Counter struct {
+	holder *types.Named
+	field  int
+	name   string
+	bound  int64
+	at     string
+}
+
+func c01ExecCounters(p *Prog, a *Anchors) []c01Counter {
+	var out []c01Counter
+	seen := map[string]int{}
+	ereach := a.ExecReach()
+	for _, f := range p.inPkgFuncsSorted(ereach) {
+		if errorResultIndex(f) < 0 {
+			continue
+		}
+		for _, b := range f.Blocks {
+			iff, ok := b.Instrs[len(b.Instrs)-1].(*ssa.If)
+			if !ok {
+				continue
+			}
+			c, pol := normCond(iff.Cond, true)
+			bo, ok := c.(*ssa.BinOp)
+			if !ok || (bo.Op != token.GTR && bo.Op != token.GEQ) {
+				continue
+			}
+			k, isK := constInt(bo.Y)
+			u, isU := bo.X.(*ssa.UnOp)
+			if !isK || !isU || u.Op != token.MUL || !isIntType(u.Type()) {
+				continue
+			}
+			fa, ok := u.X.(*ssa.FieldAddr)
+			if !ok || !steppedSomewhere(p, fa) {
+				continue
+			}
+			idx := 0
+			if !pol {
+				idx = 1
+			}
+			if !errorReturnsOnly(f, b.Succs[idx]) {
+				continue
+			}
+			h := structOf(fa.X.Type())
+			if h == nil {
+				continue
+			}
+			name := h.Obj().Name() + "." + fieldName(fa.X.Type(), fa.Field)
+			if i, dup := seen[name]; dup {
+				if k > out[i].bound {
+					out[i].bound, out[i].at = k, p.FuncName(f)
+				}
+				continue
+			}
+			seen[name] = len(out)
+			out = append(out, c01Counter{h, fa.Field, name, k, p.FuncName(f)})
+		}
+	}
+	return out
+}
+
+// c01RenderingRecord: the struct (other than ExecutionContext) that holds execution-time counters, if there is one.
+func c01RenderingRecord(p *Prog, a *Anchors) *types.Named {
+	for _, c := range c01ExecCounters(p, a) {
+		if c.holder != a.ExecCtx {
+			return c.holder
+		}
+	}
+	return nil
+}
+
+// c01RecordOf: v is the rendering record of context `of`: a load of its field, or the result of a method of
+// ExecutionContext called on it that returns the field (a lazy accessor).
+func c01RecordOf(p *Prog, v ssa.Value, of ssa.Value, recIdx int) bool {
+	v = stripLoad(v)
+	if u, ok := v.(*ssa.UnOp); ok && u.Op == token.MUL {
+		if fa, ok := u.X.(*ssa.FieldAddr); ok && fa.Field == recIdx && unspillParam(stripLoad(fa.X)) == of {
+			return true
+		}
+	}
+	if c, ok := v.(*ssa.Call); ok {
+		callee := c.Common().StaticCallee()
+		if callee == nil || callee.Blocks == nil || !p.InPkg(callee) || len(c.Common().Args) == 0 || len(callee.Params) == 0 {
+			return false
+		}
+		if unspillParam(stripLoad(c.Common().Args[0])) != of {
+			return false
+		}
+		for _, ret := range returnsOf(callee) {
+			if len(ret.Results) != 1 || !c01RecordOf(p, ret.Results[0], callee.Params[0], recIdx) {
+				return false
+			}
+		}
+		return len(returnsOf(callee)) > 0
+	}
+	return false
+}
+
+// R-C01-PERRENDER. The recursion bounds of an execution bound the stack only if the counting sees every activation of
+// the rendering. A macro body runs in a context derived from the context its macro tag was executed in — not from the
+// caller's —, and block.Super may be called from inside a macro: a counter that is a field of the ExecutionContext,
+// copied into every derived context, starts again at the definition (two macros calling each other, one defined in the
+// other, recurse twice as deep; a macro that includes templates which call it again gets a fresh template depth in
+// every activation). The counters therefore live in ONE record per rendering: not in the context itself, allocated
+// only where a root context is made (or lazily by the context's own accessor), and taken over by the context of a
+// template that another one executes.
+func ruleC01PerRendering(p *Prog, a *Anchors, r *Report) {
+	r.Begin("R-C01-PERRENDER", "the counters behind the execution-time recursion bounds are kept once per rendering (a record all contexts of the rendering point to), not per context", 2)
+	counters := c01ExecCounters(p, a)
+	if len(counters) == 0 {
+		r.Unk("none", "-", "no execution-time counter found")
+		return
+	}
+	ctxPtr := types.NewPointer(a.ExecCtx)
+	st := a.ExecCtx.Underlying().(*types.Struct)
+	var rec *types.Named
+	for _, c := range counters {
+		key := c.name + ":per-rendering"
+		if c.holder == a.ExecCtx {
+			r.Bad(key, "-", "%s (bounded by %d in %s) is kept in the execution context and copied into derived contexts: a macro body runs in a context derived from where the macro was DEFINED, so the count starts again there — macros defined inside each other, or a macro reaching itself through included templates, are not stopped at the bound, and what fits the bound does not fit the stack", c.name, c.bound, c.at)
+			continue
+		}
+		rec = c.holder
+		r.OK(key, "-", "%s is a field of %s, which contexts refer to by pointer", c.name, c.holder.Obj().Name())
+	}
+	if rec == nil {
+		return
+	}
+	recIdx := -1
+	for i := 0; i < st.NumFields(); i++ {
+		if pt, ok := st.Field(i).Type().(*types.Pointer); ok && types.Identical(pt.Elem(), rec) {
+			recIdx = i
+		}
+	}
+	if recIdx < 0 {
+		r.Unk(rec.Obj().Name()+":reached", "-", "ExecutionContext has no pointer field of type *%s", rec.Obj().Name())
+		return
+	}
+	// allocations of the record
+	for _, f := range p.inPkgFuncsSorted(p.allFuncSet()) {
+		for _, b := range f.Blocks {
+			for _, in := range b.Instrs {
+				al, ok := in.(*ssa.Alloc)
+				if !ok || !types.Identical(al.Type(), types.NewPointer(rec)) {
+					continue
+				}
+				key := p.FuncName(f) + ":makes " + rec.Obj().Name()
+				// a root context is made here (no context to derive from) …
+				root := paramOfType(f, ctxPtr) == nil
+				if root {
+					makesCtx := false
+					for _, bb := range f.Blocks {
+						for _, i2 := range bb.Instrs {
+							if a2, ok := i2.(*ssa.Alloc); ok && types.Identical(a2.Type(), ctxPtr) {
+								makesCtx = true
+							}
+						}
+					}
+					root = makesCtx
+				}
+				// … or the context's accessor makes it on the nil edge of its own field
+				lazy := false
+				if recv := f.Signature.Recv(); recv != nil && types.Identical(recv.Type(), ctxPtr) && len(f.Params) > 0 {
+					lazy = Guarded(in, func(c ssa.Value, pol bool) bool {
+						x, eq, isNil := condIsNilTest(c)
+						if !isNil || eq != pol {
+							return false
+						}
+						u, ok := x.(*ssa.UnOp)
+						if !ok {
+							return false
+						}
+						fa, ok := u.X.(*ssa.FieldAddr)
+						return ok && fa.Field == recIdx && unspillParam(stripLoad(fa.X)) == ssa.Value(f.Params[0])
+					})
+				}
+				switch {
+				case root:
+					r.OK(key, p.InstrPos(in), "made with the root context of a rendering")
+				case lazy:
+					r.OK(key, p.InstrPos(in), "made by the context's accessor only when the context has none")
+				default:
+					r.Bad(key, p.InstrPos(in), "%s makes a new %s for a context that belongs to a running rendering: what executes in that context counts its nesting from zero", p.FuncName(f), rec.Obj().Name())
+				}
+			}
+		}
+	}
+	// the executor takes the record of the executing context over
+	ex := a.ExecCore
+	var from *ssa.Parameter
+	if ex != nil && len(ex.Params) > 0 {
+		for _, pa := range ex.Params[1:] {
+			if types.Identical(pa.Type(), ctxPtr) {
+				from = pa
+			}
+		}
+	}
+	key := "nested-execution:counts-on"
+	switch {
+	case ex == nil || from == nil:
+		r.Bad(key, "-", "the executor is not told which context executes a nested template: every include/ssi counts its nesting from zero")
+	default:
+		taken := false
+		for _, b := range ex.Blocks {
+			for _, in := range b.Instrs {
+				s, ok := in.(*ssa.Store)
+				if !ok {
+					continue
+				}
+				fa, ok := s.Addr.(*ssa.FieldAddr)
+				if !ok || fa.Field != recIdx || !types.Identical(fa.X.Type(), ctxPtr) {
+					continue
+				}
+				if c01RecordOf(p, s.Val, from, recIdx) {
+					taken = true
+				}
+			}
+		}
+		if !taken {
+			// in a helper the executor calls with `from`
+			for _, b := range ex.Blocks {
+				for _, in := range b.Instrs {
+					c, ok := in.(*ssa.Call)
+					if !ok || c.Common().StaticCallee() == nil || c.Common().StaticCallee().Blocks == nil {
+						continue
+					}
+					callee := c.Common().StaticCallee()
+					for i, arg := range callArgs(c.Common()) {
+						if stripLoad(arg) != ssa.Value(from) || i >= len(callee.Params) {
+							continue
+						}
+						for _, hb := range callee.Blocks {
+							for _, hin := range hb.Instrs {
+								if s, ok := hin.(*ssa.Store); ok {
+									if fa, ok := s.Addr.(*ssa.FieldAddr); ok && fa.Field == recIdx && types.Identical(fa.X.Type(), ctxPtr) && c01RecordOf(p, s.Val, callee.Params[i], recIdx) {
+										taken = true
+									}
+								}
+							}
+						}
+					}
+				}
+			}
+		}
+		if taken {
+			r.OK(key, p.Pos(ex.Pos()), "the context of a nested execution takes over the %s of the context that executes it", rec.Obj().Name())
+		} else {
+			r.Bad(key, p.Pos(ex.Pos()), "the context of a template executed by another one (include, ssi) does not take over ExecutionContext.%s: every nested template counts its nesting from zero, and a macro reaching itself through included templates is never stopped", st.Field(recIdx).Name())
+		}
+	}
 }
